@@ -145,5 +145,10 @@ package core
 //@ ensures [inconsistent-source-is-refused-before-any-fetch] vc.called && vc.res != nil ==> result1 == vc.res && !run.called
 //@ ensures [fetching-only-after-the-gate] run.called ==> vc.called && vc.res == nil
 //@ ensures [success-only-when-the-fetch-ran-to-completion] result1 == nil && run.called ==> run.res == nil
+//@ site context.WithCancel#1 as wc
+//@ site Err#1 as ce
+//@ ensures [a-pass-a-submitter-cancelled-is-not-reported-complete] result1 == nil && run.called ==> ce.called && ce.res == nil
+//@ at ce assert [asks-the-pass-own-context-the-one-the-submitters-cancel] ce.recv == wc.res0
+//@ at run assert [fetch-runs-under-the-pass-own-context] run.ctx == wc.res0
 //@ at nf assert [fetch-starts-no-earlier-than-asked-and-resumes-from-the-destination-size-in-continuous-mode] nf.opts.StartIndex >= int64(begin) || int64(begin) < 0
 //@ at vc assert [gate-compares-destination-root-with-the-source-sth-just-fetched] vc.treeSize == gr.res0 && vc.rootHash == gr.res1 && vc.sth == pr.res0
